@@ -71,8 +71,19 @@ def run(res: Results, idx: Index, tier: str) -> None:
         dl = defuse(f.node)
         cl_vals: List[ast.AST] = []
         if payload is not None:
-            for nm in du.closure(names_in(payload)):
-                cl_vals += [d.value for d in du.defs.get(nm, []) if d.value is not None and any(p is lp for p in parents(d.stmt))]
+            # what the payload is computed from INSIDE this loop (names such as `aval` are re-bound all over the function, so the
+            # function-wide closure would pull in unrelated locals of the same loop)
+            todo = list(names_in(payload))
+            seen_l: Set[str] = set()
+            while todo:
+                nm = todo.pop()
+                if nm in seen_l:
+                    continue
+                seen_l.add(nm)
+                for d in du.defs.get(nm, []):
+                    if d.value is not None and any(p is lp for p in parents(d.stmt)):
+                        cl_vals.append(d.value)
+                        todo += list(names_in(d.value))
             cl_vals.append(payload)
         def _lossy_elt(comp: ast.AST) -> bool:
             """A per-dimension map that sends different dimensions to one constant (`... else "?"`, type names, flags)."""
